@@ -205,10 +205,11 @@ def full_language_event(rng):
 
 
 def big_task(pad):
-    """a plain task whose written form is a little over 4 KiB (the writer's buffer), PAD moves everything behind SUMMARY"""
+    """a plain task whose written form is about 4 KiB (the writer's buffer); PAD (0..383) slides the short formatted lines at
+    its end (UMASK, MAIL-*, MAX-SIMUL, DTSTART, DURATION, RRULE) across the 4096th byte"""
     text = "\n".join([
         "BEGIN:VCALENDAR", "VERSION:2.0", "BEGIN:VEVENT", "UID:big-%d@verif" % pad,
-        "SUMMARY:echo " + "s" * pad, "DESCRIPTION:" + "d" * 880, "LOCATION:/" + "l" * 870,
+        "SUMMARY:echo " + "s" * pad, "DESCRIPTION:" + "d" * 430, "LOCATION:/" + "l" * 870,
         "X-ECHS-IFILE:/" + "i" * 760, "X-ECHS-OFILE:/" + "o" * 760, "X-ECHS-EFILE:/" + "e" * 600,
         "X-ECHS-SHELL:/bin/sh", "X-ECHS-UMASK:027", "X-ECHS-MAX-SIMUL:1", "X-ECHS-MAIL-OUT:1", "X-ECHS-MAIL-ERR:1",
         "ORGANIZER:echse+host", "ATTENDEE:joe@example.com", "ATTENDEE:ann@example.org",
